@@ -76,6 +76,8 @@ func main() {
 		modeC15Live()
 	case "c09":
 		modeC09()
+	case "c20gone":
+		goneScenario()
 	case "c13":
 		modeC13(*rules, *thorough)
 	case "connlife":
